@@ -209,7 +209,7 @@ func verifHarness_C06_t06_header_line_end_T() { verifC06Harness(6, 4, 1) }
 func verifHarness_C06_t06_header_line_end_two_cuts_T() { verifC06Harness(6, 2, 2) }
 func verifHarness_C06_t07_content_length_value_Q() { verifC06Harness(7, 2, 1) }
 func verifHarness_C06_t07_content_length_value_T() { verifC06Harness(7, 3, 1) }
-func verifHarness_C06_t07_content_length_value_two_cuts_T() { verifC06Harness(7, 2, 2) }
+func verifHarness_C06_t07_content_length_value_two_cuts_T() { verifC06Harness(7, 1, 2) }
 func verifHarness_C06_t08_body_then_pipelined_Q() { verifC06Harness(8, 3, 1) }
 func verifHarness_C06_t08_body_then_pipelined_T() { verifC06Harness(8, 4, 1) }
 func verifHarness_C06_t08_body_then_pipelined_two_cuts_T() { verifC06Harness(8, 2, 2) }
